@@ -20,3 +20,26 @@ Theorem c05_not_is_negation :
   forall (a : N -> bool) (x : ca), ca_matches a (ca_not x) = negb (ca_matches a x).
 Proof. exact ca_not_matches. Qed.
 Print Assumptions c05_not_is_negation.
+
+Require Import EV.Aliasing EV.World EV.HandlerCheck.
+
+(* T2: the access expression of a query contains a Conflict literal iff there is an archetype
+   on which the query matches and hands out a mutable reference to some component together
+   with another reference to the same component - every query expression *)
+Theorem c05_conflict_iff_aliasing_possible :
+  forall q : query, ca_conflicts (access_of q) <> nil <-> exists a, qmatch a q = true /\ aliasing (srefs a q).
+Proof. exact conflict_iff_aliasing. Qed.
+Print Assumptions c05_conflict_iff_aliasing_possible.
+
+(* [srefs] are the references of the item the implementation's matcher builds *)
+Theorem c05_references_are_those_of_the_item :
+  forall (a : N -> bool) (q : query), qmatch a q = true -> qrefs a q = srefs a q.
+Proof. exact qrefs_srefs. Qed.
+Print Assumptions c05_references_are_those_of_the_item.
+
+(* the handler-level check (conjunction, every parameter alone, every pair) accepts a parameter
+   list iff on no archetype the parameters that match it, taken together, alias mutably *)
+Theorem c05_handler_accepted_iff_no_aliasing_possible :
+  forall qs : list query, handler_conflicts (map access_of qs) = nil <-> forall a, ~ aliasing (hrefs a qs).
+Proof. exact handler_check_exact. Qed.
+Print Assumptions c05_handler_accepted_iff_no_aliasing_possible.
